@@ -116,6 +116,9 @@ def prior : String → Option Dir
   | "index-missing" => some ⟨.current, .absent⟩
   | "index-damaged" => some ⟨.current, .unopenable⟩
   | "index-emptied" => some ⟨.current, .unopenable⟩
+  | "stale-wrong-hash" => some ⟨.parsed true false, .opens .empty⟩
+  | "stale-no-hash" => some ⟨.parsed true false, .opens .empty⟩
+  | "stale-null-hash" => some ⟨.parsed true false, .opens .empty⟩
   | _ => none
 
 /-- Damage done to the data directory between two starts (the states the property
